@@ -13,6 +13,22 @@ ASSUME = ("Trusted base: g++ 12.2 / clang++ 14 (front end = interpreter of the t
           "vf/model + harness/*.hh, which contains no Au code. ")
 
 CHECKS = {
+    "C06": dict(level="exploration", technique="exhaustive enumeration of a (rep pair x unit ratio) grid of programs through the C++ front end vs the documented predicate",
+                text="Every cell of an 11x11 rep grid times a ratio grid straddling each rep's 2147-threshold and maximum (plus reciprocals, rationals, "
+                     "irrationals and factors no rep can hold) is compiled: type traits and an overload-resolution probe must evaluate without a hard "
+                     "error (totality) and equal the documented predicate; unit-only .as/.in and mixed-unit operators are accept/reject probes; every "
+                     "permitted integral cell converts all |x|<=2147 exactly. QuantityPoint cells are judged for totality and equal-origin agreement only.",
+                ref="DESIGN.md §6 C06"),
+    "C07": dict(level="model_checking", technique="explicit-state enumeration of unit multisets; every CommonUnitT formation (permutation, repetition, nesting) replayed on the real headers vs exact gcd model",
+                text="States are multisets (size 2..4) of same-dimension units from per-dimension alphabets; transitions are all permutations, repetition "
+                     "patterns, nesting splits and std::common_type. The implementation's result magnitude and each input/common ratio are read out and "
+                     "compared with the base-wise minimum of exact prime-exponent vectors; type identity across all transitions into a state is required.",
+                ref="DESIGN.md §6 C07"),
+    "C10": dict(level="model_checking", technique="explicit-state enumeration of point-unit multisets; affine maps recovered from three probe points per input vs exact rational model",
+                text="States are pairs/triples (thorough: 4-lists) of point units with rational scales and origins; transitions are all permutations/"
+                     "repetitions of CommonPointUnitT plus per-input conversions of the points 0, 1, 7, from which the implementation's map x->a*x+b is "
+                     "recovered and required to be the exact one for the implementation's own reported scale/origin, with a positive integer a and non-negative integer b.",
+                ref="DESIGN.md §6 C10"),
     "C02": dict(level="model_checking", technique="explicit-state BFS over unit expressions; every model transition replayed through the C++ front end on the real headers",
                 text="Breadth-first search from atomic units through products, quotients, powers, roots, scalings and prefixes to a depth bound, "
                      "de-duplicated by the canonical state of an independent exact model (atom monomial, scale magnitude as prime-exponent vector). "
